@@ -4,6 +4,7 @@ package main
 
 import (
 	"fmt"
+	"go/token"
 	"go/types"
 	"sort"
 
@@ -14,7 +15,7 @@ func init() {
 	register(&propDef{
 		ID: "C13",
 		Meta: propMeta{
-			Explanation: "Decides the write-then-rename protocol structurally: (R13a) inside lib/atomicfile the destination name is used by exactly one filesystem call, os.Rename(temp, dest), which is preceded by a checked Close of the temp file and whose success guards Commit's nil return; nothing removes, truncates or creates the destination; the temp file is created in filepath.Dir(dest); Close removes the temp; a direct os.Create happens only for special files. (R13b) typestate over every acquisition of an AtomicFile in the module: on every path to a return the file is committed, closed (incl. deferred), returned or stored — so no temp file survives a handled error; and nothing is written after Commit. (R13c) functions reachable from any Transformer.Apply / binpatch Apply never create or truncate files except through lib/atomicfile, and the source *os.File is written only on the in-place path guarded by canOverwrite. (R13d) errors of the copy/write calls in the rewrite path are propagated before Commit. (R13e) between acquiring an AtomicFile and committing it, the error of every fallible step is examined and its failure edge cannot reach Commit. (R13g) no io.Copy / io.CopyBuffer on the paths of PatchSet.Apply reads from an io.LimitReader without its byte count being used (io.CopyN reports a short source; control ctl/bufseek.CopyPart); (R13h) OpenForPatching opens the input read-write, and WriteInPlace hands the source on as the output, only behind an equality of the two path strings. (R13f) wherever a function reachable from the sign commands or a Transformer.Apply finishes an output encoder itself (armor, clearsign, gzip, zlib, tar, zip, base64: Close; bufio.Writer: Flush), at least one finishing call has its error used: the final bytes of what Transformer.Apply commits were written, or the failure is reported.",
+			Explanation: "Decides the write-then-rename protocol structurally: (R13a) inside lib/atomicfile the destination name is used by exactly one filesystem call, os.Rename(temp, dest), which is preceded by a checked Close of the temp file and whose success guards Commit's nil return; nothing removes, truncates or creates the destination; the temp file is created in filepath.Dir(dest); Close removes the temp; a direct os.Create happens only for special files. (R13b) typestate over every acquisition of an AtomicFile in the module: on every path to a return the file is committed, closed (incl. deferred), returned or stored — so no temp file survives a handled error; and nothing is written after Commit. (R13c) functions reachable from any Transformer.Apply / binpatch Apply never create or truncate files except through lib/atomicfile, and the source *os.File is written only on the in-place path guarded by canOverwrite. (R13d) errors of the copy/write calls in the rewrite path are propagated before Commit. (R13e) between acquiring an AtomicFile and committing it, the error of every fallible step is examined and its failure edge cannot reach Commit. (R13g) no io.Copy / io.CopyBuffer on the paths of PatchSet.Apply reads from an io.LimitReader without its byte count being used (io.CopyN reports a short source; control ctl/bufseek.CopyPart); (R13h) OpenForPatching opens the input read-write, and WriteInPlace hands the source on as the output, only behind an equality of the two path strings. (R13i) module-wide, no deferred closure branches on a captured variable that nothing can assign once the defer statement has run (named results excepted): such a clean-up never runs and leaves the temporary file behind (positive control testdata/ctl/deadguard). (R13j) in lib/pgptools, from the `size >= 0` edge of the size probe no successful return is reachable without an io.CopyN whose count derives from the probed size and whose error is looked at: a definite-length literal packet holds exactly the announced number of bytes or the merge fails before the commit. (R13f) wherever a function reachable from the sign commands or a Transformer.Apply finishes an output encoder itself (armor, clearsign, gzip, zlib, tar, zip, base64: Close; bufio.Writer: Flush), at least one finishing call has its error used: the final bytes of what Transformer.Apply commits were written, or the failure is reported.",
 			NotDecided:  "what the kernel does at each crash instant (rename atomicity and ordering are assumed from POSIX); Windows semantics; the 4-byte in-place Fixup the sign commands run on the already-committed output.",
 			Assumptions: []string{"rename(2) within one directory is atomic and replaces the destination", "a finalizer is not a handled-error cleanup (it may never run)"},
 		},
@@ -164,6 +165,15 @@ func runC13(c *Ctx) {
 		}
 	}
 	c.runControl("R13g unchecked bounded copy control (ctl/bufseek.CopyPart)", "bufseek.CopyPart", func(cp *Prog) []gFinding { return boundedCopiesChecked(cp, nil) })
+	c.Rule("R13j", "a PGP literal packet of definite length is filled with exactly the probed number of bytes (io.CopyN of the probed size, error looked at)", 1)
+	for _, f := range probedLengthCopiedExactly(p) {
+		c.Check(f.OK, "R13j", f.Key, f.Pos, "", f.Detail)
+	}
+	c.Rule("R13i", "no deferred clean-up is conditional on a variable that nothing can assign once the defer is registered (module-wide)", 0)
+	for _, f := range deferredGuardsLive(p) {
+		c.Check(f.OK, "R13i", f.Key, f.Pos, "", f.Detail)
+	}
+	c.runControl("R13i dead deferred guard control (ctl/deadguard.Copy)", "deadguard.Copy", deferredGuardsLive)
 	c.Rule("R13h", "the input is written in place only when the output is named by the same string", 2)
 	for _, f := range inPlaceOnlyForTheSameName(p) {
 		c.Check(f.OK, "R13h", f.Key, f.Pos, "", f.Detail, f.Path...)
@@ -583,24 +593,24 @@ func runC13(c *Ctx) {
 		}
 		for _, ci := range inPlace {
 			n++
-			missing, path := p.unguardedFromEntry(ap, ci, can, lst, stt)
+			missing, path := p.unguardedFromEntry(ap, ci, lst, stt)
+			if m2, p2 := p.overwriteMissing(ap, ci); len(m2) > 0 {
+				missing, path = append(missing, m2...), p2
+			}
+			_ = can
 			c.Check(len(missing) == 0, rc, fmt.Sprintf("(*lib/binpatch.PatchSet).Apply in-place %s#%d", p.calleeName(ci.Common()), n), p.Pos(ci.Pos()), "in-place write only when canOverwrite proved it safe", fmt.Sprintf("the input file is modified in place without %v", missing), path...)
 		}
 		c.Check(n >= 2, rc, "(*lib/binpatch.PatchSet).Apply in-place writes found", p.Pos(ap.Pos()), "", "in-place WriteAt/Truncate not found")
 		// canOverwrite itself: true only if regular, same file, no hard links
-		if co := p.Func("lib/binpatch.canOverwrite"); co != nil {
-			reg := p.callGuard("IsRegular()==true", []string{"(io/fs.FileMode).IsRegular"}, -1, IsTrue, nil)
-			same := p.callGuard("SameFile()==true", []string{"os.SameFile"}, -1, IsTrue, nil)
-			nolinks := p.callGuard("hasLinks()==false", []string{"lib/binpatch.hasLinks"}, -1, IsFalse, nil)
+		for _, co := range overwriteClassifiers(p) {
+			reg, same, nolinks := overwriteConjuncts(p)
 			for i, r := range returnsOf(co) {
 				if b, ok := boolConst(retVal(r, 0)); ok && !b {
 					continue
 				}
 				missing, path := p.trueReturnMissing(co, r, 0, reg, same, nolinks)
-				c.Check(len(missing) == 0, rc, fmt.Sprintf("lib/binpatch.canOverwrite return#%d", i+1), p.Pos(r.Pos()), "true only for a regular, identical, singly-linked file", fmt.Sprintf("canOverwrite can return true without %v", missing), path...)
+				c.Check(len(missing) == 0, rc, fmt.Sprintf("%s return#%d", p.FName(co), i+1), p.Pos(r.Pos()), "true only for a regular, identical, singly-linked file", fmt.Sprintf("%s can return true without %v", p.FName(co), missing), path...)
 			}
-		} else {
-			c.Undecided(rc, "binpatch.canOverwrite", "-", "function not found")
 		}
 	}
 
@@ -794,4 +804,137 @@ func atomicTempInDestDir(p *Prog, nw *ssa.Function, tmp ssa.CallInstruction) boo
 		return true
 	}
 	return false
+}
+
+// ------------------------------------------------------------------------------ R13i
+
+// deferredGuardsLive: `defer func() { if err != nil { out.Close(); os.Remove(tmp) } }()` cleans up
+// only if the err it captured is the variable the failing steps assign. When every later step
+// declares its own err (`if _, err := ...`), nothing stores into the captured variable after the
+// defer statement: the guard is decided when the defer is registered and the clean-up never runs -
+// the temporary file stays behind on every failure. Reported for every deferred closure that
+// branches on a captured variable with no store reachable after the defer (named results are
+// assigned by every return, so they never qualify).
+func deferredGuardsLive(p *Prog) (out []gFinding) {
+	for _, fn := range p.Funcs {
+		nD := 0
+		for _, b := range fn.Blocks {
+			for _, in := range b.Instrs {
+				df, ok := in.(*ssa.Defer)
+				if !ok {
+					continue
+				}
+				mc, ok := df.Call.Value.(*ssa.MakeClosure)
+				if !ok {
+					continue
+				}
+				cf, ok := mc.Fn.(*ssa.Function)
+				if !ok || cf.Blocks == nil {
+					continue
+				}
+				for fi, fv := range cf.FreeVars {
+					if fi >= len(mc.Bindings) {
+						continue
+					}
+					cell, ok := mc.Bindings[fi].(*ssa.Alloc)
+					if !ok {
+						continue
+					}
+					// the closure branches on the variable
+					guards := false
+					for _, cb := range cf.Blocks {
+						ifi, ok := cb.Instrs[len(cb.Instrs)-1].(*ssa.If)
+						if !ok {
+							continue
+						}
+						if dependsOnNoCall(ifi.Cond, func(x ssa.Value) bool {
+							l, ok := x.(*ssa.UnOp)
+							return ok && l.Op == token.MUL && l.X == ssa.Value(fv)
+						}) {
+							guards = true
+						}
+					}
+					if !guards {
+						continue
+					}
+					// a named result is stored by every return; another closure may assign it too
+					isResult := false
+					for ri := 0; ri < fn.Signature.Results().Len(); ri++ {
+						if rv := fn.Signature.Results().At(ri); rv.Name() != "" && rv.Name() == cell.Comment && rv.Pos() == cell.Pos() {
+							isResult = true
+						}
+					}
+					if isResult {
+						continue
+					}
+					later := false
+					for _, r := range *cell.Referrers() {
+						switch x := r.(type) {
+						case *ssa.Store:
+							if x.Addr == ssa.Value(cell) && reachableAfter(fn, df, x, nil, nil) {
+								later = true
+							}
+						case *ssa.MakeClosure:
+							if x != mc {
+								later = true // shared with another closure: it may assign
+							}
+						case *ssa.Call, *ssa.Defer, *ssa.Go:
+							later = true // address handed on
+						}
+					}
+					// the closure itself may assign it
+					for _, cb := range cf.Blocks {
+						for _, cin := range cb.Instrs {
+							if st, ok := cin.(*ssa.Store); ok && st.Addr == ssa.Value(fv) {
+								later = true
+							}
+						}
+					}
+					nD++
+					out = append(out, gFinding{Key: fmt.Sprintf("%s deferred clean-up#%d asks a variable that is still assigned", p.FName(fn), nD), Pos: p.Pos(df.Pos()), OK: later,
+						Detail: "the deferred clean-up is conditional on `" + cell.Comment + "`, but nothing assigns that variable once the defer is registered (the later steps declare their own): the clean-up never runs, and what it was to close or remove stays behind on every failure"})
+				}
+			}
+		}
+	}
+	return out
+}
+
+// overwriteConjuncts: what makes writing the input in place safe: the output path is a regular
+// file, the very file being read, and has no other hard link.
+func overwriteConjuncts(p *Prog) (Guard, Guard, Guard) {
+	reg := p.callGuard("IsRegular()==true", []string{"(io/fs.FileMode).IsRegular"}, -1, IsTrue, nil)
+	same := p.callGuard("SameFile()==true", []string{"os.SameFile"}, -1, IsTrue, nil)
+	nolinks := p.callGuard("hasLinks()==false", []string{"lib/binpatch.hasLinks"}, -1, IsFalse, nil)
+	return reg, same, nolinks
+}
+
+// overwriteClassifiers: the boolean functions of lib/binpatch that ask os.SameFile (canOverwrite
+// today) - found by shape; their true returns are checked against the three conjuncts.
+func overwriteClassifiers(p *Prog) []*ssa.Function {
+	var out []*ssa.Function
+	for _, fn := range p.pkgFuncs("lib/binpatch") {
+		res := fn.Signature.Results()
+		if res.Len() == 1 && isBool(res.At(0).Type()) && len(p.callsIn(fn, "os.SameFile")) > 0 {
+			out = append(out, fn)
+		}
+	}
+	return out
+}
+
+// overwriteMissing: which of the conjuncts can be missing on a way to `at` - through a classifier of
+// the package that answered true, or through the three tests made in fn itself.
+func (p *Prog) overwriteMissing(fn *ssa.Function, at ssa.Instruction) ([]string, []string) {
+	for _, co := range overwriteClassifiers(p) {
+		g := p.callGuard(p.FName(co)+"()==true", []string{p.FName(co)}, -1, IsTrue, nil)
+		if m, _ := p.unguardedFromEntry(fn, at, g); len(m) == 0 {
+			return nil, nil
+		}
+	}
+	reg, same, nolinks := overwriteConjuncts(p)
+	m, path := p.unguardedFromEntry(fn, at, reg, same, nolinks)
+	if len(m) > 0 && len(overwriteClassifiers(p)) > 0 {
+		m = []string{"canOverwrite()==true"}
+	}
+	return m, path
 }
